@@ -33,6 +33,7 @@ PROBES = ["by_value_function", "workflow_job", "slurm_config", "sge_config", "cf
 N = {"quick": 16, "thorough": 300}
 JOBS = 2
 CASE_WALL = 300
+SHRINK_BUDGET = 2  # every re-execution costs three interpreter sessions
 
 
 def plan(tier, seed):
